@@ -8,7 +8,9 @@ Implementation under test (real code from REPO/src, nothing re-implemented):
     the same for PilotDescription
   * utils.misc.convert_slots_to_new / convert_slots_to_old, Slot(from_dict), Slot.as_dict
   * PythonTask(func, args, kwargs), rp.pythontask(f)(...), PythonTask.get_func_attr
-    with dill/pickle really executed, and the decoded function really called.
+    with dill/pickle really executed, and the decoded function really called; for stateful
+    callables in sequences with state changes between decoration, task creations and decoding,
+    the reference result being taken when the task is created.
 """
 import copy
 import functools
@@ -163,6 +165,95 @@ FUNCS = {
     'notcallable': 5,
     'notcallable_str': 'f_echo',
 }
+
+
+# ------------------------------------------------------------------------------
+# STATEFUL callables: factories returning (callable, set_state).  The state is pickled BY VALUE
+# with the callable (closure cell / dict in a cell, bound instance, partial argument, mutable
+# keyword default, attribute of a callable object); every callable reports the state it
+# carries as the first element of its result, so the harness can tell which function VALUE
+# came out of the envelope.  All nested, so that dill pickles them by value.
+#
+def _mk_closure_dict():
+    cfg = {'state': 0}
+
+    def scaled(*a, **k):
+        return [cfg['state'], list(a), sorted(k.items(), key=str)]
+
+    def setst(v):
+        cfg['state'] = v
+    return scaled, setst
+
+
+def _mk_closure_cell():
+    n = 0
+
+    def counter(*a, **k):
+        return [n, len(a), sorted(k)]
+
+    def setst(v):
+        nonlocal n
+        n = v
+    return counter, setst
+
+
+class Acc(object):
+    def __init__(self):
+        self.items = [0]
+
+    def total(self, *a, **k):
+        return [sum(self.items), list(a), sorted(k.items(), key=str)]
+
+
+def _mk_bound_method():
+    acc = Acc()
+
+    def setst(v):
+        acc.items = [v - 1, 1]
+    return acc.total, setst
+
+
+def _with_cfg(cfg, *a, **k):
+    return [cfg['state'], list(a), sorted(k)]
+
+
+def _mk_partial():
+    cfg = {'state': 0}
+
+    def setst(v):
+        cfg['state'] = v
+    return functools.partial(_with_cfg, cfg), setst
+
+
+def _mk_mutable_default():
+    def remembering(*a, _acc=[0], **k):
+        return [_acc[0], list(a), sorted(k.items(), key=str)]
+
+    def setst(v):
+        remembering.__kwdefaults__['_acc'][0] = v
+    return remembering, setst
+
+
+def _mk_object():
+    o = Callable_(0)
+
+    def call(*a, **k):                      # closure over an object with state
+        return [o.tagv, list(a), sorted(k)]
+
+    def setst(v):
+        o.tagv = v
+    return call, setst
+
+
+STATEFUL = {
+    'closure_dict': _mk_closure_dict,
+    'closure_cell': _mk_closure_cell,
+    'bound_method': _mk_bound_method,
+    'partial': _mk_partial,
+    'mutable_default': _mk_mutable_default,
+    'object': _mk_object,
+}
+POISON = -99
 
 
 # ------------------------------------------------------------------------------
@@ -404,6 +495,18 @@ class C19(Prop):
             kw = {k: rng.choice(pool) for k in rng.sample(['p', 'q', 'comm', 'n'], rng.randint(0, 3))}
         return {'kind': 'env', 'func': f, 'via': rng.choice(['class', 'class', 'decor']), 'args': args, 'kwargs': kw}
 
+    def _envseq_case(self, rng, name=None, via=None, nsteps=None):
+        pool = [0, 1, 2, -3, 'a', 'x y', None, True, 2.5]
+        n = nsteps or rng.randint(1, 3)
+        states = rng.sample(range(1, 10), n)
+        steps = []
+        for st in states:
+            kw = None if rng.random() < 0.3 else \
+                {k: rng.choice(pool) for k in rng.sample(['p', 'q', 'comm', 'n'], rng.randint(0, 2))}
+            steps.append({'state': st, 'args': [rng.choice(pool) for _ in range(rng.randint(0, 2))], 'kwargs': kw})
+        return {'kind': 'envseq', 'func': name or rng.choice(sorted(STATEFUL)),
+                'via': via or rng.choice(['decor', 'decor', 'class']), 's0': 0, 'steps': steps}
+
     def cases(self, rng, tier):
         T = table()
         schema, rules, aliases = T['schema'], T['rules'], T['aliases']
@@ -432,6 +535,15 @@ class C19(Prop):
         for f in FUNCS:
             yield {'kind': 'env', 'func': f, 'via': 'class', 'args': [1, 'a'], 'kwargs': {'p': 2}}
             yield {'kind': 'env', 'func': f, 'via': 'decor', 'args': [1, 'a'], 'kwargs': {'p': 2}}
+        # every stateful callable through both construction paths: one task after a state change,
+        # and several tasks in sequence with the state changing in between
+        for name in sorted(STATEFUL):
+            for via in ('decor', 'class'):
+                yield {'kind': 'envseq', 'func': name, 'via': via, 's0': 0,
+                       'steps': [{'state': 5, 'args': [4], 'kwargs': None}]}
+                yield self._envseq_case(rng, name, via, 3)
+        for _ in range(40 if tier == 'quick' else 1500):
+            yield self._envseq_case(rng)
         n_td, n_sl, n_env, n_pd = (400, 150, 100, 100) if tier == 'quick' else (9000, 4000, 2500, 2500)
         for _ in range(n_td):
             yield self._td_case(rng)
@@ -623,7 +735,54 @@ class C19(Prop):
                 'kwargs': None if dkw is None else [[k, tag_atom(v)] for k, v in dkw.items()],
                 'same': want == got, 'want': want, 'got': got, 'callable': callable(g)}
 
+    def _run_envseq(self, case):
+        """One callable, decorated once (decorator path), then for every step: change the state
+        the callable carries, take the REFERENCE result by calling the original now (encode
+        time), create the task.  Only afterwards -- and after the state was changed once more --
+        the tasks are decoded and the decoded triples called."""
+        rp = self.rp
+        f, setst = STATEFUL[case['func']]()
+        setst(case['s0'])
+        dec = rp.pythontask(f) if case['via'] == 'decor' else None
+        made = []
+        for st in case['steps']:
+            setst(st['state'])
+            args, kw = tuple(st['args']), st['kwargs']
+            want = f(*args, **(kw or {}))
+            if want[0] != st['state']:
+                raise RuntimeError('stateful callable %s does not report its state' % case['func'])
+            try:
+                if dec is not None:
+                    w = dec(*args, **(kw or {}))
+                else:
+                    w = rp.PythonTask(f, args, copy.deepcopy(kw)) if kw is not None else rp.PythonTask(f, args)
+                made.append((w, want))
+            except Exception as e:
+                made.append((e, want))
+        setst(POISON)
+        out = []
+        for w, want in made:
+            if isinstance(w, Exception):
+                out.append({'exc': exc_name(w)})
+                continue
+            try:
+                g, dargs, dkw = rp.PythonTask.get_func_attr(w)
+            except Exception as e:
+                out.append({'exc': exc_name(e)})
+                continue
+            try:
+                got = g(*dargs, **dkw)
+                state = got[0] if isinstance(got, (list, tuple)) and got and type(got[0]) is int else POISON - 1
+            except Exception as e:
+                got, state = 'raises %s' % type(e).__name__, POISON - 1
+            out.append({'state': state, 'args': [tag_atom(x) for x in dargs],
+                        'kwargs': None if dkw is None else [[k, tag_atom(v)] for k, v in dkw.items()],
+                        'same': got == want, 'want': repr(want), 'got': repr(got)})
+        return {'steps': out}
+
     def run_impl(self, case):
+        if case['kind'] == 'envseq':
+            return self._run_envseq(case)
         if case['kind'] in ('td', 'pd'):
             return self._run_td(case)
         if case['kind'] == 'slots':
@@ -693,6 +852,9 @@ class C19(Prop):
                     st.append('(inr %s)' % L.lst([self._coq_slot(x) for x in s]))
             return '(c19_slots_row %s %s %s)' % (L.lst([self.OPS[o] for o in case['ops']]),
                                                  L.lst([self._coq_slot(s) for s in case['slots']]), L.lst(st))
+        if case['kind'] == 'envseq':
+            return '(c19_envseq_row %s %s %s %s)' % (L.boolean(case['via'] == 'decor'), L.Z(case['s0']),
+                                                   self._coq_steps(case), self._coq_seq_obs(obs))
         callable_ = callable(FUNCS[case['func']])
         args = L.lst([coq_atom(tag_atom(a)) for a in case['args']])
         kw = None if case['kwargs'] is None else [[k, tag_atom(v)] for k, v in case['kwargs'].items()]
@@ -705,7 +867,28 @@ class C19(Prop):
                                         L.boolean(obs['same'] and obs['callable']))
         return '(c19_env_row %s %s %s %s)' % (L.boolean(callable_), args, self._coq_kw(kw), o)
 
+    def _coq_steps(self, case):
+        out = []
+        for st in case['steps']:
+            kw = None if st['kwargs'] is None else [[k, tag_atom(v)] for k, v in st['kwargs'].items()]
+            out.append('(mkStep %s %s %s)' % (L.Z(st['state']), L.lst([coq_atom(tag_atom(a)) for a in st['args']]),
+                                              self._coq_kw(kw)))
+        return L.lst(out)
+
+    def _coq_seq_obs(self, obs):
+        out = []
+        for o in obs['steps']:
+            if 'exc' in o:
+                out.append('(inl %s)' % errname(o['exc']))
+            else:
+                out.append('(inr (%s, %s, %s, %s))' % (L.Z(o['state']), L.lst([coq_atom(a) for a in o['args']]),
+                                                       self._coq_kw(o['kwargs']), L.boolean(o['same'])))
+        return L.lst(out)
+
     def model_show(self, case):
+        if case['kind'] == 'envseq':
+            return 'transport_seq_id %s %s %s' % (L.boolean(case['via'] == 'decor'), L.Z(case['s0']),
+                                                  self._coq_steps(case))
         if case['kind'] == 'td':
             x = coq_descr(tag_descr(case['d']))
             return '(construct td_table %s, verify td_table (construct td_table %s))' % (x, x)
@@ -729,6 +912,8 @@ class C19(Prop):
 
     # ------------------------------------------------------------------ meta
     def nontrivial(self, case, obs):
+        if case['kind'] == 'envseq':
+            return True
         if case['kind'] in ('td', 'pd'):
             return len(case['d']) >= 2
         if case['kind'] == 'slots':
@@ -736,6 +921,19 @@ class C19(Prop):
         return callable(FUNCS[case['func']])
 
     def signature(self, case, obs, clause):
+        if case['kind'] == 'envseq':
+            cond = 'other'
+            for st, o in zip(case['steps'], obs['steps']):
+                if 'exc' in o:
+                    cond = 'raises'
+                elif o['state'] == case['s0'] and st['state'] != case['s0']:
+                    cond = 'function-value-of-decoration-time'
+                elif o['state'] != st['state']:
+                    cond = 'function-value-of-another-time'
+                else:
+                    continue
+                break
+            return '%s:PythonTask.%s:stateful:%s' % (clause, case['via'], cond)
         if case['kind'] == 'pd':
             return '%s:PilotDescription.verify' % clause
         if case['kind'] == 'td':
@@ -792,6 +990,17 @@ class C19(Prop):
         return [i for i, _ in data]
 
     def shrink(self, case):
+        if case['kind'] == 'envseq':
+            st = case['steps']
+            for i in range(len(st)):
+                if len(st) > 1:
+                    yield dict(case, steps=st[:i] + st[i + 1:])
+            for i, x in enumerate(st):
+                if x['args']:
+                    yield dict(case, steps=st[:i] + [dict(x, args=x['args'][:-1])] + st[i + 1:])
+                if x['kwargs']:
+                    yield dict(case, steps=st[:i] + [dict(x, kwargs=None)] + st[i + 1:])
+            return
         if case['kind'] in ('td', 'pd'):
             d = case['d']
             for k in list(d):
@@ -827,7 +1036,10 @@ class C19(Prop):
             c = r['case']
             kinds[c['kind']] = kinds.get(c['kind'], 0) + 1
             o = r['obs'] or {}
-            if c['kind'] == 'pd':
+            if c['kind'] == 'envseq':
+                k = 'envseq:%s:%s:%d steps' % (c['via'], c['func'], len(c['steps']))
+                ops[k] = ops.get(k, 0) + 1
+            elif c['kind'] == 'pd':
                 e = o.get('v1', {})
                 e = e.get('exc', 'accepted') if isinstance(e, dict) else 'accepted'
                 excs['pd:' + e] = excs.get('pd:' + e, 0) + 1
